@@ -41,6 +41,8 @@ type intEnc struct {
 	tloU, thiU map[int]*big.Int // unsigned-canonical bounds
 	failed  string
 	nameSeq int
+	approx  bool     // some operation was over-approximated (sat answers are not trusted)
+	side    []string // side constraints of over-approximated operations
 }
 
 var (
@@ -476,7 +478,7 @@ func (ie *intEnc) tr1(t *Term) *ival {
 				return r
 			}
 		}
-		ie.fail("bvand of symbolic operands")
+		return ie.approxBit("and", ie.normU(ie.tr(t.Args[0]), w), ie.normU(ie.tr(t.Args[1]), w), w)
 	case OpBOr:
 		{
 			x, c := t.Args[0], t.Args[1]
@@ -503,9 +505,9 @@ func (ie *intEnc) tr1(t *Term) *ival {
 		if b.tz > 0 && a.hi.Cmp(pow2(b.tz)) < 0 {
 			return ie.mk(fmt.Sprintf("(+ %s %s)", a.e, b.e), new(big.Int).Add(a.lo, b.lo), new(big.Int).Add(a.hi, b.hi))
 		}
-		ie.fail("bvor of overlapping operands")
+		return ie.approxBit("or", a, b, w)
 	case OpBXor:
-		ie.fail("bvxor")
+		return ie.approxBit("xor", ie.normU(ie.tr(t.Args[0]), w), ie.normU(ie.tr(t.Args[1]), w), w)
 	case OpBNot:
 		a := ie.normU(ie.tr(t.Args[0]), w)
 		mm1 := new(big.Int).Sub(pow2(w), bigOne)
@@ -578,6 +580,27 @@ func (ie *intEnc) tr1(t *Term) *ival {
 	}
 	ie.fail("op " + opSMT[t.Op])
 	return nil
+}
+
+// approxBit over-approximates a bitwise operation on canonical operands by a
+// fresh integer with the arithmetic facts that always hold. Proofs (unsat)
+// under the over-approximation are sound; sat answers are not used.
+func (ie *intEnc) approxBit(op string, a, b *ival, w int) *ival {
+	ie.approx = true
+	ie.nameSeq++
+	n := fmt.Sprintf("bw%d", ie.nameSeq)
+	fmt.Fprintf(&ie.sb, "(declare-const %s Int)\n", n)
+	mm1 := new(big.Int).Sub(pow2(w), bigOne)
+	switch op {
+	case "or":
+		ie.side = append(ie.side, fmt.Sprintf("(and (>= %s %s) (>= %s %s) (<= %s (+ %s %s)) (<= %s %s))", n, a.e, n, b.e, n, a.e, b.e, n, mm1))
+		return &ival{e: n, lo: bmax(a.lo, b.lo), hi: bmin(new(big.Int).Add(a.hi, b.hi), mm1)}
+	case "and":
+		ie.side = append(ie.side, fmt.Sprintf("(and (>= %s 0) (<= %s %s) (<= %s %s))", n, n, a.e, n, b.e))
+		return &ival{e: n, lo: new(big.Int), hi: bmin(a.hi, b.hi)}
+	}
+	ie.side = append(ie.side, fmt.Sprintf("(and (>= %s 0) (<= %s (+ %s %s)) (<= %s %s))", n, n, a.e, b.e, n, mm1))
+	return &ival{e: n, lo: new(big.Int), hi: bmin(new(big.Int).Add(a.hi, b.hi), mm1)}
 }
 
 // bitOf: Bool expression for bit k of t.
@@ -673,7 +696,7 @@ func (ie *intEnc) trb(t *Term) string {
 
 // intEncode renders the query; ok=false when some operation has no integer
 // translation.
-func intEncode(asserts []*Term, vars []*Term) (text string, varOrder []*Term, ok bool, why string) {
+func intEncode(asserts []*Term, vars []*Term) (text string, approx bool, ok bool, why string) {
 	ie := &intEnc{memo: map[int]*ival{}, bmemo: map[int]string{}, vlo: map[string]*big.Int{}, vhi: map[string]*big.Int{}, vars: map[string]*Term{},
 		tloS: map[int]*big.Int{}, thiS: map[int]*big.Int{}, tloU: map[int]*big.Int{}, thiU: map[int]*big.Int{}}
 	defer func() {
@@ -712,10 +735,13 @@ func intEncode(asserts []*Term, vars []*Term) (text string, varOrder []*Term, ok
 		}
 	}
 	out.WriteString(ie.sb.String())
+	for _, sc := range ie.side {
+		fmt.Fprintf(&out, "(assert %s)\n", sc)
+	}
 	for _, t := range tops {
 		fmt.Fprintf(&out, "(assert %s)\n", t)
 	}
-	return out.String(), vars, true, ""
+	return out.String(), ie.approx, true, ""
 }
 
 // debugIntEnc: given a model under which the integer encoding is satisfiable
